@@ -171,14 +171,52 @@ Proof.
   rewrite <- !app_assoc. reflexivity.
 Qed.
 
-(* a reference that is only a fragment, only a query, or empty: both the specification and the
-   resolver keep the base's path untouched (no dot-segment removal is involved) *)
-Theorem resolve_impl_no_path : forall base ref,
+(* a reference that is only a fragment, only a query, or empty: the resolver returns exactly the
+   result of RFC 3986 5.2 (no dot-segment removal is involved), for every base *)
+Lemma parse5_query_ref rest :
+  let (a, f) := split_first (N.eqb k_hash) rest in
+  parse5 (k_qmark :: rest) = mk_parts None None [] (Some a) (option_map snd f).
+Proof.
+  destruct (split_first (N.eqb k_hash) rest) as [a f] eqn:E.
+  unfold parse5. cbn [split_first]. change (N.eqb k_hash k_qmark) with false. cbv iota. rewrite E.
+  cbn [split_first]. change (N.eqb k_qmark k_qmark) with true. cbv iota. cbn. reflexivity.
+Qed.
+
+Lemma parse5_frag_ref rest :
+  parse5 (k_hash :: rest) = mk_parts None None [] None (Some rest).
+Proof. unfold parse5. cbn [split_first]. change (N.eqb k_hash k_hash) with true. cbn. reflexivity. Qed.
+
+Lemma parse5_empty : parse5 [] = mk_parts None None [] None None.
+Proof. reflexivity. Qed.
+
+Theorem resolve_impl_no_path_spec : forall base ref,
+  match ref with [] => true | c :: _ => N.eqb c k_qmark || N.eqb c k_hash end = true ->
+  resolve_impl base ref = Some (resolve base ref).
+Proof.
+  intros base ref H. destruct ref as [|c rest].
+  - unfold resolve_impl, resolve, transform. rewrite parse5_empty. cbn [p_scheme p_authority p_path p_query p_fragment].
+    unfold recompose. cbn [p_scheme p_authority p_path p_query p_fragment].
+    destruct (p_query (parse5 base)); rewrite ?app_nil_r, <- ?app_assoc; reflexivity.
+  - apply orb_true_iff in H. destruct H as [H|H]; apply N.eqb_eq in H; subst c.
+    + pose proof (parse5_query_ref rest) as P.
+      destruct (split_first (N.eqb k_hash) rest) as [a f] eqn:E.
+      unfold resolve_impl, resolve, transform. rewrite P.
+      cbn [p_scheme p_authority p_path p_query p_fragment].
+      change (N.eqb k_qmark k_slash) with false. change (N.eqb k_qmark k_qmark) with true. cbv iota.
+      unfold recompose. cbn [p_scheme p_authority p_path p_query p_fragment].
+      f_equal. rewrite <- !app_assoc. f_equal. f_equal. f_equal.
+      rewrite (split_first_app _ _ _ _ E). simpl. f_equal. f_equal.
+      destruct f as [[d r]|]; [|reflexivity]. simpl.
+      pose proof (split_first_char _ _ _ _ _ E) as Hd. apply N.eqb_eq in Hd. subst d. reflexivity.
+    + unfold resolve_impl, resolve, transform. rewrite parse5_frag_ref.
+      cbn [p_scheme p_authority p_path p_query p_fragment].
+      change (N.eqb k_hash k_slash) with false. change (N.eqb k_hash k_qmark) with false.
+      change (N.eqb k_hash k_hash) with true. cbv iota.
+      unfold recompose. cbn [p_scheme p_authority p_path p_query p_fragment].
+      f_equal. rewrite <- !app_assoc. reflexivity.
+Qed.
+
+Corollary resolve_impl_no_path : forall base ref,
   match ref with [] => true | c :: _ => N.eqb c k_qmark || N.eqb c k_hash end = true ->
   resolve_impl base ref <> None.
-Proof.
-  intros base ref H. unfold resolve_impl.
-  destruct (p_scheme (parse5 ref)); [discriminate|].
-  destruct ref as [|c rest]; [discriminate|].
-  apply orb_true_iff in H. destruct H as [H|H]; apply N.eqb_eq in H; subst c; simpl; discriminate.
-Qed.
+Proof. intros base ref H. rewrite (resolve_impl_no_path_spec base ref H). discriminate. Qed.
